@@ -334,6 +334,15 @@ def run(facts, rep, tier):
     # LO.3: table provenance of the non-fallback assignments
     loops = [n for n in f.nodes() if n.k == 'rangefor']
     loopvars = {l.var['decl']: (l.n('range').qname or l.n('range').name if l.n('range') is not None and l.n('range').k == 'ref' else None) for l in loops}
+    # `const LanguageInfo &inf = languageInfo[i];` (an index loop): a reference local bound to an element of a table
+    for n in f.nodes():
+        if n.k != 'decl': continue
+        for v_ in n.vars:
+            if not v_.get('isref') or not v_.get('init'): continue
+            i0 = guards.strip_casts(Node(f.tu, v_['init']))
+            if i0 is not None and i0.k == 'subscript':
+                b0 = guards.strip_casts(i0.n('base'))
+                if b0 is not None and b0.k == 'ref' and (b0.qname or b0.name or '').split('::')[-1] in ('languageInfo', 'countryInfo'): loopvars[v_['decl']] = (b0.qname or b0.name)
     for n in f.nodes():
         if n.k == 'binop' and n.op == '=' and res_field(n.n('lhs')) in required:
             v = guards.strip_casts(n.n('rhs'))
@@ -473,28 +482,36 @@ def _selection_rules(facts, rep, f):
         while x is not None and x.k in ('cast', 'paren', 'materialize', 'bindtemp') and x.n('sub') is not None: x = x.n('sub')
         return x
 
-    def mentions_entry(x, entryp):
-        return any(entryp(y) for y in x.walk())
+    def mentions_entry(x, entryp, fn=None, depth=0):
+        for y in x.walk():
+            if entryp(y): return True
+            if fn is not None and depth < 3 and y.k == 'ref' and y.dk == 'local' and (y.type or '').replace('const ', '') == 'bool':
+                init = guards.single_assignment_init(fn, y.decl)
+                if init is not None and mentions_entry(init, entryp, fn, depth + 1): return True
+        return False
 
     def is_zero(x):
         x = strip(x)
         return x is not None and x.k in ('int', 'char') and x.v == 0
 
-    def classify(e, fn, entryp, depth=0):
-        """('eq',) | ('prefix', x, n, site) | ('term', x, n) | ('other',) | ('unknown', why)"""
+    def classify(e, fn, entryp, depth=0, neg=False):
+        """what the condition `e` (or, with neg, its negation) says about a table entry:
+        ('eq',) | ('prefix', x, n, site) | ('term', x, n) | ('other',) | ('unknown', why)"""
         e = strip(e)
         if e is None or depth > 6: return ('unknown', 'expression too deep')
-        if not mentions_entry(e, entryp) and not (e.k == 'call' and e.callee_in_root): return ('other',)
+        if not mentions_entry(e, entryp, fn) and not (e.k == 'call' and e.callee_in_root): return ('other',)
+        CMP = ('strcmp', 'strncmp', 'memcmp', 'strcoll')
         if e.k == 'binop' and e.op in ('&&', '||'):
+            eff = e.op if not neg else ('||' if e.op == '&&' else '&&')          # De Morgan
             parts = []
             def flat(x):
                 x = strip(x)
                 if x is not None and x.k == 'binop' and x.op == e.op: flat(x.n('lhs')); flat(x.n('rhs'))
-                else: parts.append(classify(x, fn, entryp, depth + 1))
+                else: parts.append(classify(x, fn, entryp, depth + 1, neg))
             flat(e)
             rel = [p_ for p_ in parts if p_[0] != 'other']
             if not rel: return ('other',)
-            if e.op == '||':
+            if eff == '||':
                 for p_ in rel:
                     if p_[0] == 'prefix': return p_
                 if any(p_[0] in ('unknown', 'term') for p_ in rel): return ('unknown', 'a disjunct is not a recognised comparison')
@@ -508,24 +525,27 @@ def _selection_rules(facts, rep, f):
             return ('unknown', 'no comparison recognised in the conjunction')
         if e.k == 'unop' and e.op == '!':
             sub = strip(e.n('sub'))
-            if sub is not None and sub.k == 'call' and (sub.calleeq or '').split('::')[-1] in ('strcmp', 'strncmp', 'memcmp', 'strcoll'):
-                return cmp_call(sub, fn)
-            if sub is not None and sub.k == 'subscript': return ('term', sub.n('base'), sub.n('idx'))
-            return ('unknown', 'negated condition')
-        if e.k == 'binop' and e.op == '==':
+            if sub is not None and sub.k == 'call' and (sub.calleeq or '').split('::')[-1] in CMP:
+                return cmp_call(sub, fn) if not neg else ('unknown', 'an inequality')
+            if sub is not None and sub.k == 'subscript': return ('term', sub.n('base'), sub.n('idx')) if not neg else ('unknown', 'an inequality')
+            return classify(sub, fn, entryp, depth + 1, not neg)
+        if e.k == 'binop' and e.op in ('==', '!='):
+            positive = (e.op == '==') != neg          # does this atom, in the polarity asked for, state an equality?
             l, r = strip(e.n('lhs')), strip(e.n('rhs'))
             if is_zero(l): l, r = r, l
             if is_zero(r) and l is not None:
-                if l.k == 'call' and (l.calleeq or '').split('::')[-1] in ('strcmp', 'strncmp', 'memcmp', 'strcoll'): return cmp_call(l, fn)
-                if l.k == 'subscript': return ('term', l.n('base'), l.n('idx'))
-                if l.k == 'call' and l.callee_base() == 'compare' and (l.mclass or '').startswith(('std::basic_string', 'std::basic_string_view')): return ('eq',)
+                if l.k == 'call' and (l.calleeq or '').split('::')[-1] in CMP: return cmp_call(l, fn) if positive else ('unknown', 'an inequality')
+                if l.k == 'subscript': return ('term', l.n('base'), l.n('idx')) if positive else ('unknown', 'an inequality')
+                if l.k == 'call' and l.callee_base() == 'compare' and (l.mclass or '').startswith(('std::basic_string', 'std::basic_string_view')): return ('eq',) if positive else ('unknown', 'an inequality')
             for a_, b_ in ((l, r), (r, l)):
-                if a_ is not None and a_.k == 'call' and (a_.calleeq or '').split('::')[-1] == 'strlen' and a_.ns('args'): return ('term', a_.ns('args')[0], b_)
+                if a_ is not None and a_.k == 'call' and (a_.calleeq or '').split('::')[-1] == 'strlen' and a_.ns('args'): return ('term', a_.ns('args')[0], b_) if positive else ('unknown', 'an inequality')
             return ('unknown', f'`{e.text()[:50]}`')
         if e.k == 'call':
             q = e.calleeq or ''
-            if e.ck == 'op' and e.op in ('==',) and ('basic_string' in q or 'basic_string_view' in q or any('basic_string' in (a.d.get('type') or '') for a in e.ns('args') if a is not None)): return ('eq',)
-            if q.startswith('std::operator==') : return ('eq',)
+            if e.ck == 'op' and e.op in ('==', '!=') and ('basic_string' in q or 'basic_string_view' in q or any('basic_string' in (a.d.get('type') or '') for a in e.ns('args') if a is not None)):
+                return ('eq',) if ((e.op == '==') != neg) else ('unknown', 'an inequality')
+            if q.startswith('std::operator=='): return ('eq',) if not neg else ('unknown', 'an inequality')
+            if q.startswith('std::operator!='): return ('eq',) if neg else ('unknown', 'an inequality')
             if e.callee_in_root:
                 ts = [t for t in facts.resolve(e) if t.cfg is not None]
                 if len(ts) == 1:
@@ -537,18 +557,25 @@ def _selection_rules(facts, rep, f):
                         args = e.ns('args')
                         prm = g.d['params']
                         if e.ck == 'op' and len(args) == len(prm) + 1: args = args[1:]        # operator()(closure, args…)
-                        ent = {prm[i]['decl'] for i, a in enumerate(args) if a is not None and i < len(prm) and mentions_entry(a, entryp)}
-                        if e.n('object') is not None and e.ck != 'op' and mentions_entry(e.n('object'), entryp): return ('unknown', 'member function of the entry')
+                        ent = {prm[i]['decl'] for i, a in enumerate(args) if a is not None and i < len(prm) and mentions_entry(a, entryp, fn)}
+                        if e.n('object') is not None and e.ck != 'op' and mentions_entry(e.n('object'), entryp, fn): return ('unknown', 'member function of the entry')
                         if not ent: return ('other',)
                         for i, a in enumerate(args):
                             if a is not None and i < len(prm): ENV[prm[i]['decl']] = (a, fn)
-                        return classify(val, g, lambda y: y.k == 'ref' and y.decl in ent, depth + 1)
+                        return classify(val, g, lambda y: y.k == 'ref' and y.decl in ent, depth + 1, neg)
                 return ('unknown', f'{q.split("::")[-1]}() has several returns / is not resolved')
             return ('unknown', f'{q}()')
         if e.k == 'ref' and e.dk == 'local':
             init = guards.single_assignment_init(fn, e.decl)
-            if init is not None: return classify(init, fn, entryp, depth + 1)
+            if init is not None: return classify(init, fn, entryp, depth + 1, neg)
         return ('unknown', f'`{e.text()[:50]}`')
+
+    def classify_site(c, fn, entryp):
+        """the condition selects an entry either when it holds (`if (equal) take`) or when it fails (`if (different) continue`)"""
+        v = classify(c, fn, entryp)
+        if v[0] in ('eq', 'prefix', 'other'): return v
+        v2 = classify(c, fn, entryp, neg=True)
+        return v2 if v2[0] in ('eq', 'prefix') else v
 
     ENV = {}          # parameter decl of a followed helper -> (argument expression, function it is written in)
 
@@ -578,16 +605,32 @@ def _selection_rules(facts, rep, f):
         if not is_len: return ('unknown', f'{b}() over `{a[2].text()[:30]}` bytes: whether that covers the terminator is not followed')
         return ('prefix', a[0], a[2], c.shortloc())
 
-    entryp = lambda y: y.k == 'member' and y.name in ('code', 'value') and y.n('base') is not None and strip(y.n('base')) is not None and strip(y.n('base')).k == 'ref' and strip(y.n('base')).decl in loopvars
+    ENTRY_T = ('LanguageInfo', 'CountryInfo', 'LocaleInfo::_info')
+    def entryp(y):
+        if not (y.k == 'member' and y.name in ('code', 'value') and y.n('base') is not None): return False
+        b = strip(y.n('base'))
+        if b is None: return False
+        if b.k == 'ref' and (b.decl in loopvars or any(t_ in ((b.d.get('decltype') or '') + ' ' + (b.type or '')) for t_ in ENTRY_T)): return True
+        return b.k in ('subscript', 'unop') and any(t_ in (b.type or '') for t_ in ENTRY_T)        # languageInfo[i].code, it->code
     n5 = 0; allok = True
-    for n in f.nodes():
+    # get() and the helpers of this file it reaches
+    scope = {}; work = [f]
+    while work:
+        g_ = work.pop()
+        if g_.name in scope or len(scope) > 40: continue
+        scope[g_.name] = g_
+        for n in g_.nodes():
+            if n.k == 'call' and n.callee_in_root:
+                for t_ in facts.resolve(n):
+                    if t_.file == f.file and t_.cfg is not None and not t_.d.get('lambda'): work.append(t_)
+    for fn_, n in [(g_, n) for g_ in scope.values() for n in g_.nodes()]:
         if n.k not in ('if', 'while') or n.n('c') is None: continue
         c = n.n('c')
-        if not mentions_entry(c, entryp): continue
-        v = classify(c, f, entryp)
+        if not mentions_entry(c, entryp, fn_): continue
+        v = classify_site(c, fn_, entryp)
         if v[0] == 'other': continue
         n5 += 1
-        inst = f'line {n.line - f.line:+d} of get(): `{c.text()[:70]}` selects by whole-string equality'
+        inst = (f'line {n.line - f.line:+d} of get()' if fn_ is f else f'{fn_.name.split("::")[-1]}() line {n.line}') + f': `{c.text()[:70]}` selects by whole-string equality'
         if v[0] == 'eq': rep.ok('LO.5', inst, n.shortloc())
         elif v[0] == 'prefix':
             allok = False
@@ -599,8 +642,14 @@ def _selection_rules(facts, rep, f):
     # predicates handed to std::find_if & co.: closures of get() that receive a table entry
     try: f_end = int((f.d.get('endloc') or '').split(':')[1])
     except Exception: f_end = f.line + 400
+    def _within(g):
+        for h in scope.values():
+            try: h_end = int((h.d.get('endloc') or '').split(':')[1])
+            except Exception: h_end = h.line + 400
+            if h.line <= g.line <= h_end: return True
+        return False
     for g in facts.fns:
-        if not g.d.get('lambda') or g.file != f.file or not (f.line <= g.line <= f_end): continue
+        if not g.d.get('lambda') or g.file != f.file or not _within(g): continue
         ent = {p_['decl'] for p_ in g.d['params'] if any(t_ in (p_['ctype'] + ' ' + p_.get('type', '')) for t_ in ('LanguageInfo', 'CountryInfo', 'LocaleInfo::_info'))}
         if not ent: continue
         ep = lambda y, ent=ent: y.k == 'member' and y.name in ('code', 'value') and y.n('base') is not None and strip(y.n('base')) is not None and strip(y.n('base')).k == 'ref' and strip(y.n('base')).decl in ent
@@ -608,7 +657,7 @@ def _selection_rules(facts, rep, f):
             if r_.k != 'return': continue
             val = r_.n('value') if r_.n('value') is not None else r_.n('sub')
             if val is None or not mentions_entry(val, ep): continue
-            v = classify(val, g, ep)
+            v = classify_site(val, g, ep)
             if v[0] == 'other': continue
             n5 += 1
             inst = f'predicate at line {r_.line - f.line:+d} of get(): `{val.text()[:70]}` selects by whole-string equality'
